@@ -556,7 +556,10 @@ class Run:
         """Evaluate the rules of another property that this one's clause rests on (`only`: rule-id prefixes of the other property) and
         report them under this property's name (`C08.admit…` → `<as_prefix>.admit…`).  The rules are written once; a property whose
         statement covers the same comparison is answerable for it too.  Known-finding keys of the other property do not carry over."""
+        if getattr(self, "_imported", False):
+            return      # rules are imported one level deep: the rules another property imports in turn are that property's business
         child = Run(self.F, other_prop, self.tier)
+        child._imported = True
         run_fn(child)
         pre = other_prop + "."
         for i in child.instances:
